@@ -24,7 +24,14 @@ What is demanded (only where the property statement gives an expectation):
     duplicate from one side leaves a feasible placement an answer must come back, and any answer has
     no species on both sides, keys within the given sides, all non-duplicated species present,
     balanced, positive, coprime.
-  * any other exception type is a violation.
+  * any other exception type is a violation; so is a call that neither answers nor raises within
+    TIMEOUT seconds (CBC enumerating an unbounded integer program), its CBC child is killed.
+
+Stand-ins: constructed / wrong_side / duplicates use integer compositions only.  `fractional` holds the
+same kinds of cases for species with half-integer (float) composition entries, plus one fixed case through
+chempy's formula parser (H3.5 + HO2Cl3.5 -> HO2.5 + H2.5Cl).  It is kept apart because it fires on the
+unmodified tree: sympy.nsimplify(Matrix) leaves Floats in place, linsolve then works in floating point, and
+mode True returns unbalanced 16-digit "integers" while mode False refuses a uniquely balanced reaction.
 """
 import json
 import os
